@@ -1,6 +1,6 @@
 """C01 - canonical output is well-formed ASCII in every component (decided part: see DESIGN.md 4.C01)."""
 from ..rules import queryvar
-from ..rules.kindrules import k1, k2_k3, k5, k_req, make_kinds
+from ..rules.kindrules import k1, k5, make_kinds
 from .C12 import roles
 from .common import quoter_audits, table_checks
 
@@ -20,8 +20,7 @@ def run(ctx):
     table_checks(ctx, pols, cfgs, {"upper", "pct", "term", "plus"})
     K = make_kinds(ctx.model)
     k1(ctx, K)
-    k2_k3(ctx, K)
-    k_req(ctx, K)
+    # K2/K3/K-REQ (text quoted twice / decoded twice) are not claimed here: the result is still well-formed, they are C02's
     k5(ctx, K)
     queryvar.pair_quoting(ctx, roles(ctx.model))
     from ..rules import flow
